@@ -238,6 +238,8 @@ def _driver(rc: RuleCtx):
                 except Unsupported:
                     pass
             if via_sorted:
+                from .common import account_returns
+                account_returns(m.fi)           # (the returned value was read: np.array(sorted(<the retained list>)), ascending)
                 res.ok("M5", "multi_knee.multi_knee", "np.array(sorted(knees)) is returned")
             elif sorts and len(fr.returns) == 1 and rn is not None and m.retained in rn:
                 res.ok("M5", "multi_knee.multi_knee", "knees.sort() before np.array(knees) is returned")
